@@ -102,7 +102,9 @@ pub fn resolve_question(q: &QSel, pool: &[(MName, u16)]) -> QSpec {
     } else {
         pool[pick(q.sel, pool.len())].clone()
     };
-    let name = match q.how % 5 {
+    let name = match q.how % 6 {
+        // one label that swallows the whole base name (fewer labels, same wire-form tail)
+        5 => crate::gen::merged_confusable(&base).unwrap_or_else(|| base.clone()),
         0 => base.clone(),
         1 => base.child(b"a"),
         2 => base.parent().unwrap_or_else(MName::root),
@@ -288,7 +290,7 @@ pub fn render(spec: &ReqSpec, pool: &[(MName, u16)], keys: &[KeySpec], now: u64)
 pub fn qsel() -> impl Strategy<Value = QSel> {
     (
         any::<u16>(),
-        prop_oneof![5 => Just(0u8), 2 => Just(1u8), 1 => Just(2u8), 1 => Just(3u8), 1 => Just(4u8)],
+        prop_oneof![5 => Just(0u8), 2 => Just(1u8), 1 => Just(2u8), 1 => Just(3u8), 1 => Just(4u8), 1 => Just(5u8)],
         prop_oneof![3 => Just(0u64), 1 => any::<u64>()],
         prop_oneof![
             8 => prop_oneof![Just(mr::T_A), Just(mr::T_AAAA), Just(mr::T_NS), Just(mr::T_CNAME), Just(mr::T_SOA), Just(mr::T_MX), Just(mr::T_TXT), Just(mr::T_SRV), Just(mr::T_ANY)],
@@ -326,7 +328,7 @@ pub fn tsig_req() -> impl Strategy<Value = TsigReq> {
         prop::option::weighted(0.2, any::<u16>()),
         prop::option::weighted(0.12, (any::<u16>(), 0u8..8)),
         prop_oneof![8 => Just(0u16), 1 => any::<u16>()],
-        prop_oneof![8 => Just(Vec::new()), 1 => prop::collection::vec(any::<u8>(), 1..8)],
+        prop_oneof![8 => Just(Vec::new()), 1 => prop::collection::vec(any::<u8>(), 1..8), 1 => prop::collection::vec(any::<u8>(), 6..40)],
         prop_oneof![12 => Just(mr::C_ANY), 1 => Just(mr::C_IN)],
         prop_oneof![12 => Just(0u32), 1 => Just(1u32), 1 => Just(0x8000_0000u32)],
         prop::bool::weighted(0.06),
